@@ -253,6 +253,9 @@ fn enumerate(env: &Env, st: &mut Stats) -> Vec<Failure> {
 }
 
 fn replay_enumerated(case: &Value, _env: &Env) -> CaseResult {
+    for t in case["preceded_by_failing_compiles"].as_array().cloned().unwrap_or_default() {
+        replay_disturbance(t.as_str().unwrap_or(""));
+    }
     let text = case["expression"].as_str().unwrap_or("");
     let mut st = Stats::new();
     let doc = case["document"].as_str().unwrap_or(ENUM_DOC).to_string();
